@@ -205,3 +205,48 @@ func VT_C06_PullIDReads() {
 	vt.Assert(proto.Equal(c.byId[id].body, wCopy), "pullid-does-not-alter-stored-value")
 	vt.Reach("done")
 }
+
+// Two backpressured subscribers of one collection with different read masks (none / default_int32, in either
+// registration order) and an update: each receives its own projection of the old and the new value.
+func VT_C06_TwoSubscribersDifferentMasks() {
+	id := "0000000000000001"
+	init := &T6{DefaultInt32: vt.Int32("init.i32"), DefaultInt64: 7}
+	initCopy := proto.Clone(init).(*T6)
+	c := NewCollection(WithInitialRecord(id, init))
+	pairs := [][2]*fieldmaskpb.FieldMask{{nil, vth.Mask("default_int32")}, {vth.Mask("default_int32"), nil}}
+	pair := pairs[vt.Choose("masks", len(pairs))]
+	ctx, cancel := context.WithCancel(context.Background())
+	events := make([][]*CollectionChange, 2)
+	fins := []chan struct{}{make(chan struct{}), make(chan struct{})}
+	for i := 0; i < 2; i++ {
+		i := i
+		ropts := []ReadOption{WithBackpressure(true), WithUpdatesOnly(true)}
+		if pair[i] != nil {
+			ropts = append(ropts, WithReadMask(pair[i]))
+		}
+		ch := c.Pull(ctx, ropts...)
+		go func() {
+			defer close(fins[i])
+			for e := range ch {
+				events[i] = append(events[i], e)
+			}
+		}()
+	}
+	w := &T6{DefaultInt32: vt.Int32("w.i32"), DefaultInt64: 9}
+	wCopy := proto.Clone(w).(*T6)
+	_, err := c.Update(id, w)
+	vt.Assert(err == nil, "update-succeeds")
+	vt.Settle()
+	cancel()
+	<-fins[0]
+	<-fins[1]
+	for i := 0; i < 2; i++ {
+		vt.Assert(len(events[i]) == 1, "each-subscriber-gets-the-event")
+		if len(events[i]) != 1 {
+			continue
+		}
+		vtProjected6(events[i][0].OldValue, initCopy, pair[i], "own-projection-of-update-old")
+		vtProjected6(events[i][0].NewValue, wCopy, pair[i], "own-projection-of-update-new")
+	}
+	vt.Reach("done")
+}
